@@ -3,6 +3,7 @@
   `CRModel/Place.lean`, the model of `rotate_translate_local` / `occupancy_shape_from_state` for exact states.
 -/
 import CRModel.Place
+import CRProps.C04
 import Mathlib.Tactic.Ring
 import Mathlib.Tactic.Linarith
 import Mathlib.Tactic.FieldSimp
@@ -83,6 +84,75 @@ theorem P04_centroid_box (x0 y0 a b : Rat) (ha : a ≠ 0) (hb : b ≠ 0) :
   rw [hsum]
   simp only [hab, if_false]
   congr 1 <;> field_simp <;> ring
+
+/-! ### what the symbolic occupancies of the dispatch model (CRModel/Occupancy.lean) DENOTE -/
+
+/-- A pose: position, orientation `a` and its cosine / sine (parameters). -/
+structure Pose where
+  t : Pt
+  a : Rat
+  c : Rat
+  s : Rat
+
+/-- The geometric data of one obstacle: its shape, the pose of its initial state and of every trajectory state, the
+    stored occupancies of a set-based prediction. -/
+structure Geo where
+  shape : Shape
+  τ : Rat
+  initPose : Pose
+  trajPose : Nat → Pose
+  stored : Nat → Shape
+
+def placeAt (g : Geo) (p : Pose) : Shape := place p.c p.s p.a g.τ p.t g.shape
+
+/-- `occupancy_shape_from_state` for exact states / stored occupancies: what each symbolic answer stands for. -/
+def denote (g : Geo) : CR.Occ.Occ → Shape
+  | .init => placeAt g g.initPose
+  | .placed i => placeAt g (g.trajPose i)
+  | .stored i => g.stored i
+  | .shape => g.shape
+
+open CR.Occ in
+/-- C04, geometric form: inside the horizon (after the initial step) the occupancy at `t` is the obstacle's shape rotated
+    about its own centre by the orientation and moved to the position of THE TRAJECTORY STATE OF TIME STEP `t`. -/
+theorem P04_dyn_occupancy_geometry (g : Geo) (tInit t0 : Int) (ts : List Int) (hw : WfTraj t0 ts) (t : Int)
+    (h1 : tInit < t) (h2 : t0 ≤ t) (h3 : t < t0 + ts.length) :
+    (occupancyAt (.dynamic tInit (.traj t0 ts)) t).map (denote g) = some (placeAt g (g.trajPose (t - t0).toNat))
+    ∧ ts[(t - t0).toNat]? = some t := by
+  obtain ⟨ho, hs⟩ := C04_dyn_occ tInit t0 ts hw t h1 h2 h3
+  refine ⟨by rw [ho]; rfl, C04_dyn_state_time tInit t0 ts hw t _ hs⟩
+
+open CR.Occ in
+/-- At the initial time step (any prediction) and for a static obstacle at ALL times: the shape placed at the initial
+    state; an environment obstacle: its bare shape at all times. -/
+theorem P04_initial_and_static_geometry (g : Geo) (tInit : Int) (p : CR.Occ.Pred) (t t' : Int) :
+    (occupancyAt (.dynamic tInit p) tInit).map (denote g) = some (placeAt g g.initPose) ∧
+    (occupancyAt (.static tInit) t).map (denote g) = some (placeAt g g.initPose) ∧
+    (occupancyAt (.static tInit) t).map (denote g) = (occupancyAt (.static tInit) t').map (denote g) ∧
+    (occupancyAt .environment t).map (denote g) = some g.shape := by
+  simp [occupancyAt, denote]
+
+/-- Point-mass states: the pose's direction is that of the velocity vector — `(c, s) = (vx, vy) / |v|`, which is what
+    "the heading is atan2(vy, vx)" means for the placement (the angle itself is the parameter `a`). -/
+def PMPose (vx vy : Rat) (p : Pose) : Prop :=
+  ∃ sp : Rat, 0 < sp ∧ sp * sp = vx * vx + vy * vy ∧ p.c * sp = vx ∧ p.s * sp = vy
+
+theorem P04_pm_pose_unit (vx vy : Rat) (p : Pose) (h : PMPose vx vy p) : p.c * p.c + p.s * p.s = 1 := by
+  obtain ⟨sp, hpos, hsq, hc, hs⟩ := h
+  have hne : sp * sp ≠ 0 := by positivity
+  have : (p.c * p.c + p.s * p.s) * (sp * sp) = 1 * (sp * sp) := by
+    have e : (p.c * p.c + p.s * p.s) * (sp * sp) = (p.c * sp) * (p.c * sp) + (p.s * sp) * (p.s * sp) := by ring
+    rw [e, hc, hs, one_mul, hsq]
+  exact mul_right_cancel₀ hne this
+
+/-- …and the direction is NOT that of `(hypot(vx, vy), vy)` (the defect repaired in 6d38b19) unless `vx ≥ 0 ∧ vy = 0`:
+    a pose whose direction is parallel to `(vx, vy)` with `vx < 0` has negative cosine. -/
+theorem P04_pm_pose_quadrant (vx vy : Rat) (p : Pose) (h : PMPose vx vy p) (hx : vx < 0) : p.c < 0 := by
+  obtain ⟨sp, hpos, _, hc, _⟩ := h
+  by_contra hcon
+  push Not at hcon
+  have : 0 ≤ p.c * sp := mul_nonneg hcon (le_of_lt hpos)
+  linarith
 
 /-- a 2 × 2 square turned by a quarter turn about its centroid (1, 1) and moved by (10, 0). -/
 example : (match place 0 1 0 6 ⟨10, 0⟩ (.poly [⟨0, 0⟩, ⟨2, 0⟩, ⟨2, 2⟩, ⟨0, 2⟩]) with | .poly v => v | _ => [])
